@@ -27,21 +27,16 @@ from cattrs import BaseConverter, Converter, UnstructureStrategy  # noqa: E402
 
 from harness import framework  # noqa: E402
 from harness.props import c03_ovr_enc as E  # noqa: E402
-from harness.props.c03_ovr_enc import IDENTITY, KEEP  # noqa: E402
+from harness.props.c03_ovr_enc import KEEP  # noqa: E402
 
 FACTORIES = {4: dict, 20: E.OrderedDict, 21: E.TagDict}
-DEVIATIONS = {"F44": "override-not-propagated-to-dict-subclass", "F45": "bare-abc-type-bypasses-hooks",
+DEVIATIONS = {"F44": "override-not-propagated-to-dict-subclass",
               "F46": "converter-ignores-dict-factory"}
 
 
 @framework.finding("override-not-propagated-to-dict-subclass")
 def f44(case) -> bool:
     return isinstance(case, dict) and case.get("part") == "overrides" and (case.get("deviation") or [None])[0] == "F44"
-
-
-@framework.finding("bare-abc-type-bypasses-hooks")
-def f45(case) -> bool:
-    return isinstance(case, dict) and case.get("part") == "overrides" and (case.get("deviation") or [None])[0] == "F45"
 
 
 @framework.finding("converter-ignores-dict-factory")
@@ -114,7 +109,7 @@ def gen_type(rng, depth, ncls, base=False):
         if E.DECLS[inner][1] == "map":
             return ["any", ["map", inner, 0, ["leaf", "str"], ["leaf", "int"]]]
         return ["any", ["bare", inner, 0]]
-    return ["bare", rng.choice([d for d in E.DECLS if E.DECLS[d][1] != "map" and not (base and d in E.BARE_ABC)]), sp]
+    return ["bare", rng.choice([d for d in E.DECLS if E.DECLS[d][1] != "map"]), sp]
 
 
 def gen_classes(rng, base=False):
@@ -147,8 +142,6 @@ def doc_choose(cfg, relax):
     def choose(decl, het, value):
         if not cfg["gen"]:
             return KEEP  # BaseConverter keeps the container class it finds
-        if "F45" in relax and decl in E.BARE_ABC:
-            return IDENTITY
         origin = tuple if het else E.DECLS[decl][0]
         dflt = E.DOC_DEFAULT["het" if het else E.DECLS[decl][1]]
         if "F44" in relax and decl in ("orderedDict", "defaultDict"):
@@ -198,7 +191,7 @@ def model_ovr(drv, entries):
     sx = parse_sx(r)
     sec = {x[0]: x[1:] for x in sx[1:]}
     return {"closed": {k: int(t) for k, t in sec["closed"]}, "copy": {k: int(t) for k, t in sec["copy"]},
-            "cont": {k: (None if t == "keep" else int(t)) for k, t in sec["cont"]},
+            "cont": {k: int(t) for k, t in sec["cont"]},
             "spec": {k: (None if t == "-" else int(t)) for k, t in sec["spec"]}}
 
 
@@ -206,8 +199,7 @@ def model_choose(cfg, m, pool):
     def choose(decl, het, value):
         if not cfg["gen"]:
             return KEEP
-        t = m["cont"][decl]
-        return IDENTITY if t is None else E.target_of_id(t, pool)
+        return E.target_of_id(m["cont"][decl], pool)
     return choose
 
 
@@ -263,7 +255,7 @@ def pool_json(pool):
 
 
 # ---------------------------------------------------------------- the check
-RELAXATIONS = [["F44"], ["F45"], ["F46"], ["F44", "F45"], ["F44", "F46"], ["F45", "F46"], ["F44", "F45", "F46"]]
+RELAXATIONS = [["F44"], ["F46"], ["F44", "F46"]]
 
 
 def evaluate(cfg, conv, classes, t, vseed, m, drv):
@@ -345,7 +337,7 @@ def run_overrides(chk: framework.Check, drv):
     for case, what in corr_fail[:5]:
         chk.violation("correspondence corr:C03:OVR broken (theorems C03_override_* no longer tied to the code): " + what[:600],
                       case, found_input=False)
-    chk.extra["overrides"] = {"cases": n_cases, "evaluations": n_eval, "documented-deviations(F44-F46)": n_dev,
+    chk.extra["overrides"] = {"cases": n_cases, "evaluations": n_eval, "documented-deviations(F44,F46)": n_dev,
                               "rule": "random override dicts over the 15 collection keys (family-biased subsets, several "
                                       "spellings, builtin / tagging / sorting targets) x dict_factory x strategy x 0-2 copy(); "
                                       "flat table of the 20 declared collection types + 6 random nested types with classes"}
@@ -370,9 +362,12 @@ def replay_witnesses(chk):
              kind(Converter(unstruct_collection_overrides={abc.Sequence: t2, typing.Sequence: t}), [1], list[int])], [8, 7]),
         "C03_override_statement_order_witness": (
             [kind(Converter(unstruct_collection_overrides={abc.Set: t}), {1}, set[int])], [7]),
-        "C03_override_bare_abc_witness": (
+        "C03_override_bare_abc_same": (
             [kind(Converter(unstruct_collection_overrides={abc.Sequence: t}), (1,), abc.Sequence),
-             kind(Converter(unstruct_collection_overrides={abc.Sequence: t}), (1,), abc.Sequence[int])], ["tuple", 7]),
+             kind(Converter(unstruct_collection_overrides={abc.Sequence: t}), (1,), abc.Sequence[int]),
+             kind(Converter(unstruct_collection_overrides={abc.Set: t}), {1}, abc.MutableSet),
+             kind(Converter(), (E.Col.RED,), abc.Sequence), Converter().unstructure((E.Col.RED,), unstructure_as=abc.Sequence)],
+            [7, 7, 7, "list", [1]]),
         "C03_override_dict_factory_witness": (
             [type(C(dict_factory=E.TagDict, unstruct_strat=s).unstructure(E.make_classes(
                 [{"kind": "attrs", "fields": [["a", ["leaf", "int"]]]}])[0]["cls"](1))).__name__
